@@ -26,7 +26,7 @@ RULE = (
 ASSUMPTIONS = ["node functions mutate only their default-valued arguments; bound and provided objects are only read"]
 
 
-def gen_prog(rng: random.Random, nested: bool) -> dict:
+def gen_prog(rng: random.Random, nested: bool, pfx: str = "") -> dict:
     """x -> acc nodes (mutating list defaults) -> consumer of a bound object."""
     n_acc = rng.randint(1, 3)
     nodes = []
@@ -35,37 +35,44 @@ def gen_prog(rng: random.Random, nested: bool) -> dict:
         ps = [{"name": prev}]
         if rng.random() < 0.5:
             ps.append({"name": "y"})
-        ps.append({"name": f"acc{i}", "default": []})
-        nodes.append({"kind": "fn", "name": f"a{i}", "params": ps, "outs": [f"s{i}"], "beh": "snapshot", "beh_param": f"acc{i}"})
+        if rng.random() < 0.35:
+            # the default is a dict that HOLDS a mutable value: a shallow copy per run is not enough
+            ps.append({"name": f"acc{i}", "default": {"items": [], "count": 0}})
+            nodes.append({"kind": "fn", "name": f"{pfx}a{i}", "params": ps, "outs": [f"s{i}"], "beh": "snapshot_nested", "beh_param": f"acc{i}"})
+        else:
+            ps.append({"name": f"acc{i}", "default": []})
+            nodes.append({"kind": "fn", "name": f"{pfx}a{i}", "params": ps, "outs": [f"s{i}"], "beh": "snapshot", "beh_param": f"acc{i}"})
         prev = f"s{i}" if rng.random() < 0.7 else prev
-    nodes.append({"kind": "fn", "name": "use", "params": [{"name": f"s{n_acc - 1}"}, {"name": "cfg"}, {"name": "y"}], "outs": ["u"]})
+    nodes.append({"kind": "fn", "name": f"{pfx}use", "params": [{"name": f"s{n_acc - 1}"}, {"name": "cfg"}, {"name": "y"}], "outs": ["u"]})
     if rng.random() < 0.5:
-        nodes.append({"kind": "fn", "name": "side", "params": [{"name": "x"}, {"name": "memo", "default": []}], "outs": ["sd"], "beh": "snapshot", "beh_param": "memo"})
+        nodes.append({"kind": "fn", "name": f"{pfx}side", "params": [{"name": "x"}, {"name": "memo", "default": []}], "outs": ["sd"], "beh": "snapshot", "beh_param": "memo"})
     if nested:
-        inner = [nd for nd in nodes if nd["name"].startswith("a")]
-        rest = [nd for nd in nodes if not nd["name"].startswith("a")]
-        nodes = [{"kind": "graph", "name": "inner", "graph": {"name": "inner", "nodes": inner, "order": list(range(len(inner)))}}] + rest
+        inner = [nd for nd in nodes if nd["name"].startswith(f"{pfx}a")]
+        rest = [nd for nd in nodes if not nd["name"].startswith(f"{pfx}a")]
+        nodes = [{"kind": "graph", "name": f"{pfx}inner", "graph": {"name": f"{pfx}inner", "nodes": inner, "order": list(range(len(inner)))}}] + rest
     order = list(range(len(nodes)))
     rng.shuffle(order)
-    return {"name": "g", "nodes": nodes, "order": order}
+    return {"name": "g", "nodes": nodes, "order": order, "last": f"s{n_acc - 1}", "use": f"{pfx}use"}
 
 
 def gen_case(rng: random.Random, tier: str) -> dict:
-    progs = [gen_prog(rng, False), gen_prog(rng, True)]
+    progs = [gen_prog(rng, False, "p0_"), gen_prog(rng, True, "p1_")]
     ops = []
     for _ in range(rng.randint(3, 8)):
         r = rng.random()
-        if r < 0.25:
-            ops.append({"op": "sync", "g": rng.randrange(2), "runner": rng.randrange(2), "x": rng.randint(0, 2), "kw": rng.random() < 0.4})
+        if r < 0.08:
+            ops.append({"op": "mapnode", "clone": rng.choice([True, False, ["y"]]), "xs": [rng.randint(0, 3) for _ in range(rng.randint(1, 3))], "sync": rng.random() < 0.5, "runner": rng.randrange(2), "cfg": gen.gen_async_cfg(rng)})
+        elif r < 0.25:
+            ops.append({"op": "sync", "g": rng.randrange(2), "runner": rng.randrange(2), "x": rng.randint(0, 2), "kw": rng.random() < 0.4, "ep": rng.random() < 0.3})
         elif r < 0.45:
-            ops.append({"op": "async", "g": rng.randrange(2), "runner": rng.randrange(2), "x": rng.randint(0, 2), "k": rng.choice([None, 1, 2]), "cfg": gen.gen_async_cfg(rng), "kw": rng.random() < 0.4})
+            ops.append({"op": "async", "g": rng.randrange(2), "runner": rng.randrange(2), "x": rng.randint(0, 2), "k": rng.choice([None, 1, 2]), "cfg": gen.gen_async_cfg(rng), "kw": rng.random() < 0.4, "ep": rng.random() < 0.3})
         elif r < 0.85:
             n = rng.randint(2, 4)
             same_x = rng.random() < 0.6
             x0 = rng.randint(0, 2)
             ops.append({
                 "op": "batch",
-                "runs": [{"g": rng.randrange(2), "runner": rng.randrange(3), "x": x0 if same_x else rng.randint(0, 2), "k": rng.choice([None, 1, 2, 3]), "kw": rng.random() < 0.3} for _ in range(n)],
+                "runs": [{"g": rng.randrange(2), "runner": rng.randrange(3), "x": x0 if same_x else rng.randint(0, 2), "k": rng.choice([None, 1, 2, 3]), "kw": rng.random() < 0.3, "ep": rng.random() < 0.25} for _ in range(n)],
                 "cfg": gen.gen_async_cfg(rng),
             })
         else:
@@ -86,6 +93,17 @@ class _Pool:
                 graph, comp = build(spec, rt, flav, bind={"cfg": self.cfg_obj})
                 self.graphs[(gi, flav)] = graph
                 self.comps.append(comp)
+        # structurally identical graphs that differ only in their entry-point configuration (derived from the same objects)
+        self.graphs_ep = {k: g.with_entrypoint(doc["progs"][k[0]]["use"]) for k, g in self.graphs.items()}
+        # a mapping node whose inner graph binds an object: it must reach the function as that very object, clone or not
+        self.mapnode: dict[tuple, tuple] = {}
+        for clone_key, clone in (("T", True), ("F", False), ("L", ["y"])):
+            for flav in ("sync", "async"):
+                spec = {"name": "mo", "nodes": [{"kind": "graph", "name": "mp", "map_over": ["x"], "clone": clone, "graph": {"name": "mp", "bind": {"cfgi": {"inner": [7]}}, "nodes": [
+                    {"kind": "fn", "name": "mf", "params": [{"name": "x"}, {"name": "y"}, {"name": "cfgi"}], "outs": ["mo_o"]}], "order": [0]}}], "order": [0]}
+                graph, comp = build(spec, rt, flav)
+                self.comps.append(comp)
+                self.mapnode[(clone_key, flav)] = (graph, comp.nodes["mp"].graph.inputs.bound["cfgi"])
         self.sync_runners = [make_runner("sync", rt) for _ in range(2)]
         self.async_runners = [make_runner("async", rt) for _ in range(3)]
         self.defaults0 = {(ci, k): canon(getattr(f, "__defaults__", None)) for ci, c in enumerate(self.comps) for k, f in c.funcs.items()}
@@ -98,6 +116,12 @@ def _inputs(x: int) -> dict:
     return {"x": x, "y": [x, x + 1]}  # a mutable value in the caller's mapping
 
 
+def _inputs_for(doc: dict, gi: int, x: int, ep: bool) -> dict:
+    if not ep:
+        return _inputs(x)
+    return {"y": [x, x + 1], doc["progs"][gi]["last"]: [700 + x]}  # upstream value supplied by the caller
+
+
 def _split(inp: dict, kw: bool) -> tuple[dict, dict]:
     """Some calls pass part of the inputs as keyword arguments next to the values mapping."""
     if not kw:
@@ -106,11 +130,19 @@ def _split(inp: dict, kw: bool) -> tuple[dict, dict]:
     return inp, {"y": y}
 
 
-def _alone(doc: dict, gi: int, x: int, flav: str, *, map_xs=None) -> list:
+def _alone(doc: dict, gi: int, x: int, flav: str, *, map_xs=None, ep: bool = False) -> list:
     """The same operation executed alone on freshly compiled objects."""
     rt = Runtime(schedule={"mode": "delay", "seed": 0, "choices": [0]})
     with patched(rt):
         graph, _ = build(doc["progs"][gi], rt, flav, bind={"cfg": {"k": [1, 2, 3]}})
+        if ep:
+            graph = graph.with_entrypoint(doc["progs"][gi]["use"])
+            inp = _inputs_for(doc, gi, x, True)
+            if flav == "sync":
+                r = make_runner("sync", rt)
+                return _summ(call_sync(rt, lambda: r.run(graph, inp)))
+            r = make_runner("async", rt)
+            return _summ(call_async(rt, [lambda: r.run(graph, inp)])[0])
         if flav == "sync":
             r = make_runner("sync", rt)
             if map_xs is not None:
@@ -140,10 +172,10 @@ def run_case(doc: dict) -> dict:
     mutating_runs = 0
     ref_cache: dict = {}
 
-    def ref(gi, x, flav, map_xs=None):
-        key = (gi, x, flav, tuple(map_xs) if map_xs is not None else None)
+    def ref(gi, x, flav, map_xs=None, ep=False):
+        key = (gi, x, flav, tuple(map_xs) if map_xs is not None else None, ep)
         if key not in ref_cache:
-            ref_cache[key] = _alone(doc, gi, x, flav, map_xs=map_xs)
+            ref_cache[key] = _alone(doc, gi, x, flav, map_xs=map_xs, ep=ep)
             res["runs"] += 1
         return ref_cache[key]
 
@@ -152,21 +184,23 @@ def run_case(doc: dict) -> dict:
         for oi, op in enumerate(doc["ops"]):
             tag = f"op{oi}[{op['op']}]"
             if op["op"] == "sync":
-                inp, kwi = _split(_inputs(op["x"]), op.get("kw"))
+                ep = bool(op.get("ep"))
+                inp, kwi = _split(_inputs_for(doc, op["g"], op["x"], ep), op.get("kw"))
                 keep = dict(inp)
                 r = pool.sync_runners[op["runner"]]
-                g = pool.graphs[(op["g"], "sync")]
+                g = (pool.graphs_ep if ep else pool.graphs)[(op["g"], "sync")]
                 rt.schedule = {}
                 out = call_sync(rt, lambda: r.run(g, inp, **kwi), call_id=f"op{oi}")
                 res["runs"] += 1
                 mutating_runs += 1
-                _compare(tag, _summ(out), ref(op["g"], op["x"], "sync"), viol)
+                _compare(tag, _summ(out), ref(op["g"], op["x"], "sync", ep=ep), viol)
                 _caller_dict(tag, inp, keep, viol)
             elif op["op"] == "async":
-                inp, kwi = _split(_inputs(op["x"]), op.get("kw"))
+                ep = bool(op.get("ep"))
+                inp, kwi = _split(_inputs_for(doc, op["g"], op["x"], ep), op.get("kw"))
                 keep = dict(inp)
                 r = pool.async_runners[op["runner"]]
-                g = pool.graphs[(op["g"], "async")]
+                g = (pool.graphs_ep if ep else pool.graphs)[(op["g"], "async")]
                 rt.schedule = op["cfg"]["schedule"]
                 rt.decisions = []
                 kw = dict({"max_concurrency": op["k"]} if op["k"] else {}, **kwi)
@@ -175,10 +209,31 @@ def run_case(doc: dict) -> dict:
                 mutating_runs += 1
                 res["sim_time"] += (out.get("sim") or {}).get("t_end") or 0
                 res["steps"] += (out.get("sim") or {}).get("steps") or 0
-                _compare(tag, _summ(out), ref(op["g"], op["x"], "async"), viol)
+                _compare(tag, _summ(out), ref(op["g"], op["x"], "async", ep=ep), viol)
                 _caller_dict(tag, inp, keep, viol)
+            elif op["op"] == "mapnode":
+                flav = "sync" if op["sync"] else "async"
+                ck = "T" if op["clone"] is True else ("F" if op["clone"] is False else "L")
+                g, bound_obj = pool.mapnode[(ck, flav)]
+                inp = {"x": list(op["xs"]), "y": [5, 6]}
+                h0 = len(rt.history)
+                if flav == "sync":
+                    rt.schedule = {}
+                    out = call_sync(rt, lambda: pool.sync_runners[op["runner"]].run(g, inp), call_id=f"op{oi}")
+                else:
+                    rt.schedule = op["cfg"]["schedule"]
+                    rt.decisions = []
+                    out = call_async(rt, [lambda: pool.async_runners[op["runner"]].run(g, inp)], shuffle_seed=op["cfg"].get("shuffle"), call_ids=[f"op{oi}"])[0]
+                res["runs"] += 1
+                if out["status"] != "completed":
+                    viol.append((f"{tag}:mapping_node_run_not_completed", {"status": out["status"], "error": out["error"]}))
+                for h in rt.history[h0:]:
+                    if h["k"] == "enter" and h["n"] == "mf" and h["objs"].get("cfgi") is not bound_obj:
+                        viol.append((f"{tag}:inner_bound_value_copied_by_mapping_node", {"clone": op["clone"]}))
+                        break
+                res["stats"]["mapnode_ops"] = res["stats"].get("mapnode_ops", 0) + 1
             elif op["op"] == "batch":
-                split = [_split(_inputs(r_["x"]), r_.get("kw")) for r_ in op["runs"]]
+                split = [_split(_inputs_for(doc, r_["g"], r_["x"], bool(r_.get("ep"))), r_.get("kw")) for r_ in op["runs"]]
                 inps = [a_ for a_, _b in split]
                 kwis = [b_ for _a, b_ in split]
                 keeps = [dict(i) for i in inps]
@@ -187,7 +242,7 @@ def run_case(doc: dict) -> dict:
                 facs = []
                 for j, r_ in enumerate(op["runs"]):
                     runner = pool.async_runners[r_["runner"]]
-                    g = pool.graphs[(r_["g"], "async")]
+                    g = (pool.graphs_ep if r_.get("ep") else pool.graphs)[(r_["g"], "async")]
                     kw = dict({"max_concurrency": r_["k"]} if r_["k"] else {}, **kwis[j])
                     facs.append(lambda runner=runner, g=g, i=inps[j], kw=kw: runner.run(g, i, **kw))
                 h0 = len(rt.history)
@@ -207,7 +262,7 @@ def run_case(doc: dict) -> dict:
                     elif h["k"] in ("exit", "raise"):
                         open_calls[h["c"]] = open_calls.get(h["c"], 0) - 1
                 for j, (out, r_) in enumerate(zip(outs, op["runs"])):
-                    _compare(f"{tag}#{j}", _summ(out), ref(r_["g"], r_["x"], "async"), viol)
+                    _compare(f"{tag}#{j}", _summ(out), ref(r_["g"], r_["x"], "async", ep=bool(r_.get("ep"))), viol)
                     _caller_dict(f"{tag}#{j}", inps[j], keeps[j], viol)
                     if out["status"] in ("deadlock", "step_cap"):
                         viol.append((f"{tag}#{j}:{out['status']}", {}))
@@ -268,7 +323,7 @@ def _compare(tag: str, got: list, exp: list, viol: list) -> None:
 def _caller_dict(tag: str, inp: dict, keep: dict, viol: list) -> None:
     if set(inp) != set(keep) or any(inp[k] is not keep[k] for k in keep):
         viol.append((f"{tag}:caller_input_mapping_modified", {"keys_now": sorted(inp), "keys_before": sorted(keep)}))
-    elif any(canon(inp[k]) != canon(_inputs(inp["x"])[k]) for k in ("y",) if isinstance(inp.get("x"), int) and k in inp):
+    elif any(canon(inp[k]) != canon(_inputs(inp["x"])[k]) for k in ("y",) if isinstance(inp.get("x"), int) and k in inp and not isinstance(inp.get("x"), bool)):
         viol.append((f"{tag}:caller_input_value_mutated", {"now": inp}))
 
 
@@ -302,7 +357,7 @@ def shrink_candidates(doc: dict):
     for pi, p in enumerate(doc["progs"]):
         nodes = p["nodes"]
         for ni, nd in enumerate(nodes):
-            if nd["name"] == "side":
+            if nd["name"].endswith("side"):
                 c = copy.deepcopy(doc)
                 del c["progs"][pi]["nodes"][ni]
                 c["progs"][pi]["order"] = list(range(len(c["progs"][pi]["nodes"])))
